@@ -1,6 +1,8 @@
 package main
 
 import (
+	"strings"
+	"go/types"
 	"golang.org/x/tools/go/ssa"
 )
 
@@ -130,6 +132,8 @@ func runC17(w *World, r *Report) {
 	}
 
 	c17ErrorConditions(w, r, h, begin)
+	c17CommitFailureStatus(w, r, h)
+	c17OperationStatuses(w, r, h)
 
 	bad = pathAvoiding(begin, cuts, isCommit, isOkReturn)
 	if bad != nil {
@@ -252,4 +256,287 @@ func c17ErrorConditions(w *World, r *Report, h *ssa.Function, begin *ssa.Call) {
 	if n == 0 {
 		r.Anchor("R-C17-3", "operation loop after Begin in scripting.Handler")
 	}
+}
+
+// c17CommitFailureStatus: R-C17-4. A failed commit applied nothing; the response
+// written on that edge must carry a failure status by construction, not the
+// status variable of the last (successful) operation.
+func c17CommitFailureStatus(w *World, r *Report, h *ssa.Function) {
+	r.Rule("R-C17-4", "the response written on the failure edge of Commit in the @transaction handler has a status that is a failure by construction: a constant of 400 or more, or the result of a dberrors classifier (ExecStatus / PayloadStatus), never a variable that can still hold an operation's 200", 1)
+
+	cuts := cutEdges(h, func(f Fact) bool {
+		if f.Kind != "nonnil" {
+			return false
+		}
+
+		c, _ := resultOf(f.V)
+		if c == nil {
+			if cc, ok := f.V.(*ssa.Call); ok {
+				c = cc
+			}
+		}
+
+		return c != nil && callID(c.Common()) == dbType+"Commit"
+	})
+
+	if len(cuts) == 0 {
+		r.Anchor("R-C17-4", "the test of Commit's error in scripting.Handler")
+
+		return
+	}
+
+	n := 0
+
+	allInstrs(h, func(in ssa.Instruction) {
+		c := callTo(in, "internal/util.ErrorResponse")
+		if c == nil || instrReachableAfterCut(h, in, cuts) {
+			return
+		}
+
+		n++
+
+		key := "scripting.Handler|status of the commit-failure response"
+		if n > 1 {
+			key += "#" + sprintInt(n)
+		}
+
+		st := c.Args[3]
+
+		if k, isC := constInt(st); isC {
+			if k >= 400 {
+				r.Discharge("R-C17-4", key, w.pos(in.Pos()), "constant status "+sprintInt(int(k)))
+			} else {
+				r.Violate("R-C17-4", key, w.pos(in.Pos()), "a failed commit is answered with the constant status "+sprintInt(int(k)))
+			}
+
+			return
+		}
+
+		if sc, ok := st.(*ssa.Call); ok {
+			switch callID(sc.Common()) {
+			case "internal/server/dberrors.ExecStatus", "internal/server/dberrors.PayloadStatus":
+				r.Discharge("R-C17-4", key, w.pos(in.Pos()), "status from a dberrors classifier (400, 403, 404, 409 or 500)")
+
+				return
+			}
+		}
+
+		r.Violate("R-C17-4", key, w.pos(in.Pos()), "a failed commit is answered with the status held in "+c40Describe(resolveLocal(st))+", which after a run of successful operations is 200: nothing was applied, and the client is told the transaction succeeded")
+	})
+
+	if n == 0 {
+		r.Anchor("R-C17-4", "an ErrorResponse on the failure edge of Commit")
+	}
+}
+
+// c17OperationStatuses: R-C17-5. The handler answers a failed operation with the
+// status that operation returned; every operation routine must therefore pair
+// an error with a failure status (or 0, which util.ErrorResponse turns into 500).
+func c17OperationStatuses(w *World, r *Report, h *ssa.Function) {
+	r.Rule("R-C17-5", "every routine of package scripting that returns (…, status int, err error) pairs a possibly non-nil error with a status that is a failure by construction: a constant of 400 or more, 0 (which util.ErrorResponse reports as 500), a dberrors classifier, or the status another such routine returned", 20)
+
+	for _, fn := range w.srcFuncs(w.pkg("internal/server/tables/scripting")) {
+		res := fn.Signature.Results()
+		if res.Len() < 2 || fn.Parent() != nil {
+			continue
+		}
+
+		ei := res.Len() - 1
+		si := ei - 1
+
+		if !isErrorType(res.At(ei).Type()) || !types.Identical(res.At(si).Type(), types.Typ[types.Int]) {
+			continue
+		}
+
+		// status must be named like one (the count results are ints too)
+		if res.Len() == 2 && !strings.HasPrefix(fn.Name(), "do") {
+			continue
+		}
+
+		n := 0
+
+		for _, ret := range returnsOf(fn) {
+			// the return of the recover block (functions with defers) repeats the named results
+			if fn.Recover != nil && ret.Block() == fn.Recover {
+				continue
+			}
+
+			ev := retResult(ret, ei)
+			if ev == nil || isNilConst(ev) {
+				continue
+			}
+
+			n++
+
+			key := fnKey(fn) + "|status returned with an error"
+			if n > 1 {
+				key += "#" + sprintInt(n)
+			}
+
+			ok, why := c17FailureStatus(retResult(ret, si), 0)
+			if !ok {
+				// status and error set together: judge them edge by edge
+				if c17PairedOnEveryEdge(resolveLocal(retResult(ret, si)), resolveLocal(ev), ret.Block(), 0) {
+					ok, why = true, "on every incoming path the status is a failure status or the error is nil"
+				}
+			}
+
+			if ok {
+				r.Discharge("R-C17-5", key, w.pos(ret.Pos()), why)
+			} else if reason, excepted := c17StatusOK[key]; excepted {
+				r.Except("R-C17-5", key, w.pos(ret.Pos()), reason)
+			} else {
+				r.Violate("R-C17-5", key, w.pos(ret.Pos()), "this return hands back a possibly non-nil error together with "+why+": the @transaction handler answers a failed operation with the status it was given, so the failure can be reported as a success")
+			}
+		}
+	}
+}
+
+func c17FailureStatus(v ssa.Value, depth int) (bool, string) {
+	if v == nil || depth > 4 {
+		return false, "a status that could not be followed"
+	}
+
+	v = resolveLocal(v)
+
+	if k, isC := constInt(v); isC {
+		if k >= 400 || k == 0 {
+			return true, "constant status " + sprintInt(int(k))
+		}
+
+		return false, "the constant status " + sprintInt(int(k))
+	}
+
+	switch x := v.(type) {
+	case *ssa.Call:
+		switch callID(x.Common()) {
+		case "internal/server/dberrors.ExecStatus", "internal/server/dberrors.PayloadStatus":
+			return true, "status from a dberrors classifier"
+		}
+	case *ssa.Extract:
+		if c, ok := x.Tuple.(*ssa.Call); ok {
+			if cf := calleeFunction(c.Common()); cf != nil && cf.Pkg != nil && strings.HasSuffix(cf.Pkg.Pkg.Path(), "/tables/scripting") {
+				return true, "the status " + fnKey(cf) + " returned (judged there)"
+			}
+		}
+	case *ssa.Phi:
+		for _, e := range x.Edges {
+			if ok, why := c17FailureStatus(e, depth+1); !ok {
+				return false, why
+			}
+		}
+
+		return true, "every alternative is a failure status"
+	}
+
+	return false, "a status computed as " + c40Describe(v)
+}
+
+// dominatingFacts: what the branches that dominate b establish (edges into
+// single-predecessor blocks on b's dominator chain).
+func dominatingFacts(b *ssa.BasicBlock) []Fact {
+	var out []Fact
+
+	for d := b; d != nil && d.Idom() != nil; d = d.Idom() {
+		p := d.Idom()
+		if len(d.Preds) != 1 || d.Preds[0] != p {
+			continue
+		}
+
+		ifi, ok := p.Instrs[len(p.Instrs)-1].(*ssa.If)
+		if !ok {
+			continue
+		}
+
+		out = append(out, withCellFacts(edgeFacts(ifi.Cond, p.Succs[0] == d))...)
+	}
+
+	return out
+}
+
+// c17PairedOnEveryEdge: at block `at` the pair (status, err) is acceptable on
+// every incoming path: the status is a failure status, or the error is nil
+// there (a nil constant, or found nil by a branch that dominates the path).
+func c17PairedOnEveryEdge(status, err ssa.Value, at *ssa.BasicBlock, depth int) bool {
+	if depth > 6 {
+		return false
+	}
+
+	if ok, _ := c17FailureStatus(status, 0); ok {
+		return true
+	}
+
+	errNilAt := func(e ssa.Value, b *ssa.BasicBlock) bool {
+		if e == nil || isNilConst(e) {
+			return true
+		}
+
+		for _, f := range dominatingFacts(b) {
+			if f.Kind == "nil" && (f.V == e || resolveLocal(f.V) == resolveLocal(e)) {
+				return true
+			}
+		}
+
+		return false
+	}
+
+	sp, isPhi := status.(*ssa.Phi)
+	if !isPhi {
+		return errNilAt(err, at)
+	}
+
+	ep, errIsPhi := err.(*ssa.Phi)
+	if errIsPhi && ep.Block() != sp.Block() {
+		errIsPhi = false
+	}
+
+	for i, sv := range sp.Edges {
+		pred := sp.Block().Preds[i]
+
+		ev := err
+		if errIsPhi {
+			ev = ep.Edges[i]
+		}
+
+		if ok, _ := c17FailureStatus(sv, 0); ok {
+			continue
+		}
+
+		if errNilAt(ev, pred) {
+			continue
+		}
+
+		// the edge also establishes facts of its own (pred ends in the branch)
+		if ifi, ok := pred.Instrs[len(pred.Instrs)-1].(*ssa.If); ok {
+			nilHere := false
+
+			for _, f := range withCellFacts(edgeFacts(ifi.Cond, pred.Succs[0] == sp.Block())) {
+				if f.Kind == "nil" && (f.V == ev || resolveLocal(f.V) == resolveLocal(ev)) {
+					nilHere = true
+				}
+			}
+
+			if nilHere {
+				continue
+			}
+		}
+
+		if _, nested := sv.(*ssa.Phi); nested {
+			if c17PairedOnEveryEdge(sv, ev, pred, depth+1) {
+				continue
+			}
+		}
+
+		return false
+	}
+
+	return true
+}
+
+// Returns whose status and error are set on matching branches through a loop
+// variable that lives in a cell (the functions defer rows.Close()), which the
+// edge-wise pairing cannot follow. Read by hand.
+var c17StatusOK = map[string]string{
+	"scripting.readTxRowData|status returned with an error": "status starts at 200 and every branch that leaves err non-nil also sets status: query failure and scan failure -> dberrors.ExecStatus, no row with the empty-result flag -> 404, more than one row -> 400; the remaining branch logs and leaves err nil",
+	"scripting.readTxRowResultSet|status returned with an error#2": "status starts at 200; query failure and scan failure set dberrors.ExecStatus(err); the empty-result case returns its own 404 earlier; otherwise err is nil",
 }
